@@ -170,6 +170,9 @@ func (c13) Run(ctx *RunCtx) {
 		ndocs = 2
 	}
 	rev := []int{0, 0}
+	maxVer := []int{1, 1}      // highest marker version generated per document
+	lspVer := []int{1, 1}      // version numbers of the notifications
+	hist := [][]int{{1}, {1}} // marker versions of the texts the document went through
 	final := []string{"", ""}
 	for i := 0; i < ndocs; i++ {
 		version[i] = 1
@@ -201,7 +204,7 @@ func (c13) Run(ctx *RunCtx) {
 		}
 		kind := 0
 		if !enumerated {
-			kind = c.Weighted("burst-kind", []int{6, 2, 1, 3})
+			kind = c.Weighted("burst-kind", []int{6, 2, 1, 3, 0, 2})
 		}
 		if cfgMode && c.Pct("cfg-toggle", 30) {
 			kind = 4
@@ -222,10 +225,28 @@ func (c13) Run(ctx *RunCtx) {
 			rev[i]++
 			text := StampText(i+1, version[i], extras[i]) + strings.Repeat("; rev\n", rev[i])
 			final[i] = text
-			d.Notify("textDocument/didChange", J{"textDocument": J{"uri": uris[i], "version": 1000 + rev[i]}, "contentChanges": []J{{"text": text}}})
+			lspVer[i]++
+			d.Notify("textDocument/didChange", J{"textDocument": J{"uri": uris[i], "version": lspVer[i]}, "contentChanges": []J{{"text": text}}})
 			ctx.T("didChange d%d: same version v%d, revision %d (diagnostics unchanged)", i+1, version[i], rev[i])
+		case 5:
+			// undo: back to the exact text of the version before (an analysis of the
+			// version in between may still be running)
+			if len(hist[i]) < 2 {
+				continue
+			}
+			hist[i] = hist[i][:len(hist[i])-1]
+			version[i] = hist[i][len(hist[i])-1]
+			rev[i] = 0
+			lspVer[i]++
+			final[i] = StampText(i+1, version[i], extras[i])
+			d.Notify("textDocument/didChange", J{"textDocument": J{"uri": uris[i], "version": lspVer[i]}, "contentChanges": []J{{"text": final[i]}}})
+			ctx.T("didChange d%d: undo, back to the text of v%d", i+1, version[i])
+			ctx.Stats.Inc("probe:undo-to-an-earlier-text")
 		case 0, 1:
-			version[i]++
+			maxVer[i]++
+			version[i] = maxVer[i]
+			hist[i] = append(hist[i], version[i])
+			lspVer[i]++
 			rev[i] = 0
 			text := StampText(i+1, version[i], extras[i])
 			final[i] = text
@@ -233,14 +254,17 @@ func (c13) Run(ctx *RunCtx) {
 			if kind == 1 {
 				change["range"] = rng(0, 0, 1000, 0)
 			}
-			d.Notify("textDocument/didChange", J{"textDocument": J{"uri": uris[i], "version": version[i]}, "contentChanges": []J{change}})
+			d.Notify("textDocument/didChange", J{"textDocument": J{"uri": uris[i], "version": lspVer[i]}, "contentChanges": []J{change}})
 			ctx.T("didChange d%d -> v%d (%s)", i+1, version[i], map[int]string{0: "range-less", 1: "whole-document range"}[kind])
 		case 2:
 			d.Notify("textDocument/didClose", J{"textDocument": docID(uris[i])})
-			version[i]++
+			maxVer[i]++
+			version[i] = maxVer[i]
+			hist[i] = []int{version[i]}
+			lspVer[i]++
 			rev[i] = 0
 			final[i] = StampText(i+1, version[i], extras[i])
-			d.Notify("textDocument/didOpen", J{"textDocument": J{"uri": uris[i], "languageId": "hledger", "version": version[i], "text": final[i]}})
+			d.Notify("textDocument/didOpen", J{"textDocument": J{"uri": uris[i], "languageId": "hledger", "version": lspVer[i], "text": final[i]}})
 			ctx.T("didClose + didOpen d%d -> v%d", i+1, version[i])
 		}
 		if !enumerated {
